@@ -25,6 +25,11 @@ pub struct Spec {
     pub assumptions: Vec<String>,
 }
 
+/// Depth of the histories of one program: programs named `deep-…` get one more operation.
+pub fn depth_of(spec: &Spec, prog: &Program) -> usize {
+    spec.depth + usize::from(prog.name.starts_with("deep-"))
+}
+
 #[derive(Clone, Debug, Serialize, Deserialize)]
 pub struct Case {
     pub program: Program,
@@ -417,7 +422,7 @@ pub fn run_fault_worker(spec: &Spec, w: usize, nw: usize) -> WorkerOut {
             if !mine {
                 continue;
             }
-            let d = spec.depth;
+            let d = depth_of(spec, &prog);
             let mut idx = vec![0usize; d];
             idx[0] = first;
             loop {
@@ -509,7 +514,7 @@ pub fn run_worker(spec: &Spec, w: usize, nw: usize) -> WorkerOut {
             if !mine {
                 continue;
             }
-            let d = spec.depth;
+            let d = depth_of(spec, &prog);
             let mut idx = vec![0usize; d];
             idx[0] = first;
             let mut changed_from = 0usize;
